@@ -2573,29 +2573,35 @@ setattr_delegate(
     /* Follow the delegation chain until we find a non-delegated trait: */
     daname = name;
     Py_INCREF(daname);
+    /* 'delegate' is an owned reference for as long as it is used: the
+       delegate may be a temporary (for example the result of a property). */
     delegate = obj;
+    Py_INCREF(delegate);
     for (i = 0;;) {
         dict = delegate->obj_dict;
         if ((dict != NULL)
             && ((temp_delegate = (has_traits_object *)PyDict_GetItem(
                      dict, traitd->delegate_name))
                 != NULL)) {
-            delegate = temp_delegate;
+            Py_INCREF(temp_delegate);
         }
         else {
             // Handle the case when the delegate is not in the instance
             // dictionary (could be a method that returns the real delegate):
-            delegate = (has_traits_object *)has_traits_getattro(
+            temp_delegate = (has_traits_object *)has_traits_getattro(
                 delegate, traitd->delegate_name);
-            if (delegate == NULL) {
+            if (temp_delegate == NULL) {
+                Py_DECREF(delegate);
                 Py_DECREF(daname);
                 return -1;
             }
-            Py_DECREF(delegate);
         }
+        Py_DECREF(delegate);
+        delegate = temp_delegate;
 
         // Verify that 'delegate' is of type 'CHasTraits':
         if (!PyHasTraits_Check(delegate)) {
+            Py_DECREF(delegate);
             Py_DECREF(daname);
             return bad_delegate_error2(obj, name);
         }
@@ -2611,11 +2617,13 @@ setattr_delegate(
                      delegate->ctrait_dict, daname))
                 == NULL)
             && ((traitd = get_prefix_trait(delegate, daname, 1)) == NULL)) {
+            Py_DECREF(delegate);
             Py_DECREF(daname);
             return bad_delegate_error(obj, name);
         }
 
         if (Py_TYPE(traitd) != ctrait_type) {
+            Py_DECREF(delegate);
             Py_DECREF(daname);
             return fatal_trait_error();
         }
@@ -2639,12 +2647,14 @@ setattr_delegate(
                     }
                 }
             }
+            Py_DECREF(delegate);
             Py_DECREF(daname);
 
             return result;
         }
 
         if (++i >= 100) {
+            Py_DECREF(delegate);
             Py_DECREF(daname);
             return delegation_recursion_error(obj, name);
         }
